@@ -39,6 +39,7 @@ type foundViol struct {
 	replayFile string
 	class     string // "new", "known", "expected"
 	count     int
+	alts      []Violation // further counterexamples for the same key (tried when the first does not reproduce natively)
 }
 
 // instState accumulates the results of one instance.
@@ -191,6 +192,13 @@ func (ck *Checker) runPath(st *instState, sol *Solver, prefix []Decision) (newWo
 				switch pe := e.(type) {
 				case pathEnd:
 					kind, msg = pe.kind, pe.msg
+				case *goPanic:
+					// a panic nothing recovered: the violation it would have been without the deferred recover()
+					kind, msg = "panic", fmt.Sprintf("%s at %s (not recovered)", pe.kind, pe.site)
+					if !(r.inst.OnlyAsserts) && r.sol.Check() == "sat" {
+						r.oblSat++
+						r.report(pe.kind, pe.site, pe.msg)
+					}
 				case solverDied:
 					kind, msg = "solver", pe.msg
 				default:
@@ -255,6 +263,9 @@ func (ck *Checker) runPath(st *instState, sol *Solver, prefix []Decision) (newWo
 	for _, v := range r.viol {
 		if fv, ok := st.viols[v.Key]; ok {
 			fv.count++
+			if len(fv.alts) < 12 {
+				fv.alts = append(fv.alts, v)
+			}
 			continue
 		}
 		st.viols[v.Key] = &foundViol{Violation: v, count: 1}
